@@ -81,6 +81,8 @@ type MCall struct {
 	Canceled string // "" or the kill mode pending
 	RecvProg bool
 	Done     bool
+	Deadline int64 // virtual ms at which the router ends the call (0: no router-side timeout)
+	Timeout  int64
 }
 
 type MRealm struct {
@@ -737,6 +739,9 @@ func (m *MRealm) Call(s int, req wamp.ID, opts wamp.Dict, proc string, args wamp
 	m.nInv++
 	call := &MCall{Caller: s, Req: req, Callee: -1, InvSym: m.nInv}
 	call.RecvProg, _ = opts["receive_progress"].(bool)
+	if to, ok := wamp.AsInt64(opts["timeout"]); ok && to > 0 {
+		call.Timeout = to
+	}
 	// Every (registration, callee) the rules allow.
 	type cand struct {
 		reg    *MReg
@@ -781,9 +786,9 @@ func (m *MRealm) Call(s int, req wamp.ID, opts wamp.Dict, proc string, args wamp
 	for _, c := range cs {
 		_ = c
 	}
-	callRegs[call] = func(callee int) *MReg {
+	callRegs[call] = func(callee int, regSym int) *MReg {
 		for _, c := range cs {
-			if c.callee == callee {
+			if c.callee == callee && (regSym == 0 || c.reg.Sym == regSym) {
 				return c.reg
 			}
 		}
@@ -792,7 +797,7 @@ func (m *MRealm) Call(s int, req wamp.ID, opts wamp.Dict, proc string, args wamp
 	return out, call
 }
 
-var callRegs = map[*MCall]func(int) *MReg{}
+var callRegs = map[*MCall]func(int, int) *MReg{}
 
 func (m *MRealm) noteRR(reg *MReg, callee int) {
 	for i, c := range reg.Callees {
@@ -804,10 +809,10 @@ func (m *MRealm) noteRR(reg *MReg, callee int) {
 }
 
 // CallResolve fixes the callee of an ambiguous call after observation.
-func (m *MRealm) CallResolve(call *MCall, callee int) {
+func (m *MRealm) CallResolve(call *MCall, callee int, regSym int) {
 	call.Callee = callee
 	if f := callRegs[call]; f != nil {
-		call.Reg = f(callee)
+		call.Reg = f(callee, regSym)
 		delete(callRegs, call)
 	}
 	if call.Reg != nil {
@@ -1013,5 +1018,52 @@ func (m *MRealm) Live() []int {
 		}
 	}
 	sort.Ints(out)
+	return out
+}
+
+// ArmTimeout is called once the callee of a call is known: the router times
+// the call out itself unless the callee handles the timeout (registered with
+// forward_timeout and supports call_timeout).
+func (m *MRealm) ArmTimeout(c *MCall, nowMs int64) {
+	if c == nil || c.Timeout <= 0 || c.Callee < 0 || c.Reg == nil {
+		return
+	}
+	if c.Reg.FwdTO && m.Sess[c.Callee].Feat["callee.call_timeout"] {
+		return
+	}
+	c.Deadline = nowMs + c.Timeout
+}
+
+// NextDeadline returns the earliest pending router-side call deadline (0 if none).
+func (m *MRealm) NextDeadline() int64 {
+	var d int64
+	for _, c := range m.Calls {
+		if c.Done || c.Deadline == 0 || c.Canceled != "" {
+			continue
+		}
+		if d == 0 || c.Deadline < d {
+			d = c.Deadline
+		}
+	}
+	return d
+}
+
+// Expire ends every call whose deadline has been reached: wamp.error.timeout
+// to the caller, INTERRUPT as for killnowait to a callee that can be interrupted.
+func (m *MRealm) Expire(nowMs int64) []Exp {
+	var out []Exp
+	for _, c := range m.Calls {
+		if c.Done || c.Deadline == 0 || c.Canceled != "" || c.Deadline > nowMs {
+			continue
+		}
+		if m.Sess[c.Callee].Alive && m.Sess[c.Callee].Feat["callee.call_canceling"] {
+			out = append(out, Exp{To: c.Callee, Text: fmt.Sprintf("INTERRUPT(%s,killnowait)", symI(c.InvSym))})
+		}
+		c.Canceled = "killnowait"
+		m.finish(c)
+		if m.Sess[c.Caller].Alive {
+			out = append(out, Exp{To: c.Caller, Text: errText(wamp.CALL, c.Req, "wamp.error.timeout")})
+		}
+	}
 	return out
 }
